@@ -588,10 +588,10 @@ def run(ctx):
     nsched = {}
     for name, cfg in sorted(C.items()):
         bound = 1 if ctx.quick else 2
-        window = 40 if ctx.quick else 60
+        window = 40 if ctx.quick else 30
         if not ctx.quick and name.startswith(('ahead-by-1:A', 'fork-depth-2-longer:A', 'triangle-long-at-0')):
             bound = 3
-            window = 30
+            window = 12
         if ctx.quick and name in ('triangle-long-at-0',):
             bound = 2
             window = 18
